@@ -40,7 +40,7 @@ func (s *Server) Definition(ctx context.Context, params *protocol.DefinitionPara
 		return nil, nil
 	}
 
-	resolved := s.getWorkspaceResolved(params.TextDocument.URI)
+	resolved := s.withOpenDocuments(s.getWorkspaceResolved(params.TextDocument.URI))
 	currentPath := s.resolvedPrimaryPath(params.TextDocument.URI)
 
 	location := findDefinitionLocation(target, resolved, currentPath, journal)
